@@ -32,6 +32,12 @@ Proof. exact src_clipped_fill_solid_eq. Qed.
 Theorem C03_src_clipped_bounding_box_is_model : forall log clip, src_Clipped_bounding_box (Build_Clipped log clip) = clip.
 Proof. exact src_clipped_bounding_box_eq. Qed.
 
+(* round 5: Translated::new stores the parent and the offset (translated.rs:30-32; the generated constructor also returns the
+   `&mut` parent unchanged) *)
+Theorem C03_src_translated_new : forall parent offset,
+  src_Translated_new parent offset = (parent, Build_Translated parent offset).
+Proof. reflexivity. Qed.
+
 Example C03_src_adapters_nonvacuous :
   Translated_parent (fst (src_Translated_fill_solid log_solid (Build_Translated [] (P 2 3)) (R (P 1 1) (Geometry.S 2 2)) 7)) = [FillSolid (R (P 3 4) (Geometry.S 2 2)) 7] /\
   Clipped_parent (fst (src_Clipped_fill_solid log_solid (Build_Clipped [] (R (P 0 0) (Geometry.S 4 4))) (R (P 2 2) (Geometry.S 5 5)) 7)) = [FillSolid (R (P 2 2) (Geometry.S 2 2)) 7].
